@@ -628,3 +628,85 @@ Proof.
   intros N. destruct policy; [|reflexivity]. cbn [vacuous_grant empty_rule arity repeat match_rbac].
   apply String.eqb_neq in N. rewrite N, andb_false_r. reflexivity.
 Qed.
+
+(* ---------- a simple sufficient condition for the depth guard: at most max_level + 1 names ---------- *)
+Definition closedb (ls : list link) (d : string) (n : nat) (u : string) : bool :=
+  let b := ball ls d n u in
+  forallb (fun x => forallb (fun y => mem_str y b) (succs ls d x)) b.
+
+Lemma depth_ok_closedb ls d u : depth_ok ls d u = closedb ls d max_level u.
+Proof. reflexivity. Qed.
+
+Lemma closedb_true ls d n u :
+  closedb ls d n u = true <->
+  (forall x y, In x (ball ls d n u) -> In (x, y, d) ls -> In y (ball ls d n u)).
+Proof.
+  unfold closedb. rewrite forallb_forall. split.
+  - intros C x y Hx Hy. specialize (C x Hx). rewrite forallb_forall in C. apply mem_str_In. apply C.
+    apply succs_In. exact Hy.
+  - intros C x Hx. apply forallb_forall. intros y Hy. apply mem_str_In. apply (C x y Hx).
+    apply succs_In. exact Hy.
+Qed.
+
+Lemma forallb_false_exists {A} (f : A -> bool) l : forallb f l = false -> exists x, In x l /\ f x = false.
+Proof.
+  induction l as [|a l IH]; cbn [forallb]; [discriminate|].
+  destruct (f a) eqn:Fa; cbn [andb].
+  - intros H. destruct (IH H) as [x [Hx Fx]]. exists x. split; [right; exact Hx|exact Fx].
+  - intros _. exists a. split; [left; reflexivity|exact Fa].
+Qed.
+
+Lemma ball_mono ls d n u x : In x (ball ls d n u) -> In x (ball ls d (S n) u).
+Proof. rewrite !ball_spec. intros [k [Hk W]]. exists k. split; [lia|exact W]. Qed.
+
+Lemma ball_NoDup ls d n u : NoDup (ball ls d n u).
+Proof. destruct n; cbn [ball]; [constructor; [intros []|constructor]|apply dedup_NoDup]. Qed.
+
+Lemma walk_end_in_nodes ls d a b k : walk ls d a b k -> b = a \/ In b (nodes ls).
+Proof.
+  induction 1 as [x|x y z k Hy W IH]; [left; reflexivity|]. right.
+  destruct IH as [->|H]; [apply (nodes_In _ _ _ _ Hy)|exact H].
+Qed.
+
+Lemma closedb_step ls d n u : closedb ls d n u = true -> closedb ls d (S n) u = true.
+Proof.
+  intros C. pose proof (proj1 (closedb_true ls d n u) C) as Cl.
+  assert (Same : forall x, In x (ball ls d (S n) u) -> In x (ball ls d n u)).
+  { intros x. cbn [ball]. rewrite dedup_In, in_app_iff, in_flat_map. intros [H|[y [Hy Hs]]]; [exact H|].
+    apply succs_In in Hs. apply (Cl y x Hy Hs). }
+  apply closedb_true. intros x y Hx Hy. apply ball_mono. apply (Cl x y (Same x Hx) Hy).
+Qed.
+
+Lemma ball_grows ls d u n : closedb ls d n u = true \/ S n <= List.length (ball ls d n u).
+Proof.
+  induction n as [|n IH]; [right; cbn; lia|].
+  destruct IH as [C|L]; [left; apply closedb_step; exact C|].
+  destruct (closedb ls d n u) eqn:C; [left; apply closedb_step; exact C|]. right.
+  unfold closedb in C. apply forallb_false_exists in C as [x [Hx C]].
+  apply forallb_false_exists in C as [y [Hy C]].
+  assert (Ny : ~ In y (ball ls d n u)) by (intros H; apply mem_str_In in H; congruence).
+  assert (Hy' : In y (ball ls d (S n) u)).
+  { cbn [ball]. rewrite dedup_In, in_app_iff, in_flat_map. right. exists x. split; assumption. }
+  assert (I : incl (y :: ball ls d n u) (ball ls d (S n) u)).
+  { intros z [<-|Hz]; [exact Hy'|apply ball_mono; exact Hz]. }
+  apply NoDup_incl_length in I; [cbn [List.length] in I; lia|].
+  constructor; [exact Ny|apply ball_NoDup].
+Qed.
+
+Theorem small_graph_closed ls d u n :
+  List.length (dedup (u :: nodes ls)) <= S n -> closedb ls d n u = true.
+Proof.
+  intros Small. destruct (ball_grows ls d u n) as [C|L]; [exact C|].
+  assert (Sub : incl (ball ls d n u) (dedup (u :: nodes ls))).
+  { intros x Hx. apply dedup_In. apply ball_spec in Hx as [k [_ W]].
+    destruct (walk_end_in_nodes _ _ _ _ _ W) as [->|H]; [left; reflexivity|right; exact H]. }
+  assert (Sup : incl (dedup (u :: nodes ls)) (ball ls d n u)).
+  { apply NoDup_length_incl; [apply ball_NoDup|lia|exact Sub]. }
+  apply closedb_true. intros x y _ Hy. apply Sup. apply dedup_In. right. apply (nodes_In _ _ _ _ Hy).
+Qed.
+
+(* every role graph with at most max_level + 1 = 11 distinct names (u included) is inside the guard,
+   whatever its shape *)
+Theorem small_graph_depth_ok ls d u :
+  List.length (dedup (u :: nodes ls)) <= S max_level -> depth_ok ls d u = true.
+Proof. rewrite depth_ok_closedb. apply small_graph_closed. Qed.
